@@ -24,9 +24,13 @@ RATES = [
     "Conditional(Gt(y, 0), -a*x, -b*x) + y", "-abs(y)*x", "m_inf - x*rate", "(m_inf - x)/tau_m", "alpha*(1 - x) - beta*x",
     "-x*x*y + a", "1/(1 + exp(-x)) - x", "-g_l*(x - e_l) - i_k", "a", "t - x", "-(x - y)/tau", "cos(t)*x",
     "b - a*abs(x - k)", "-abs(x)*x + y", "-abs(x) + a", "a*abs(x - y) - x", "-k*x*y",
+    # parameters whose DEFAULT value is zero / one: the linearisation vanishes (or simplifies) only for the defaults
+    "a - z0*x", "z0*(1 - x) - z1*x", "-z0*x*y + a", "-(x - y)*z0/tau", "-one*x + a", "-x*(z0 + k)",
+    # the own state in a denominator (the derivative is a negative power)
+    "a/x", "-b/(k + x)", "a*x/(b + x)", "-x/(k + x)**2", "a/(x*x) - x", "y/(1 + x)**3",
 ]
 
-HEADER = ("parameters(a=0.5, b=2.0, tau=3.0, xinf=1.0, k=0.25, g_l=0.3, e_l=-60.0)\n"
+HEADER = ("parameters(a=0.5, b=2.0, tau=3.0, xinf=1.0, k=0.25, g_l=0.3, e_l=-60.0, z0=0.0, z1=0, one=1.0)\n"
           "states(x=1.0, y=2.0)\n"
           "m_inf = 1/(1 + exp(-y))\nrate = 1 + y*y\ntau_m = 1 + abs(y)\nalpha = exp(y/2)\nbeta = 0.25*exp(-y)\ni_k = b*y\n")
 
